@@ -21,10 +21,10 @@ def make_cmds(rnd, kind, S, params, tier):
     return cmds, names, {"loadopt": opt}
 
 
-from props import gen_iters, gen_hash, gen_hashdict, gen_rpfc
+from props import gen_iters, gen_hash, gen_hashdict, gen_rpfc, gen_xbw
 from props.subgen import Sub
 CFG = DC.Config("C01", D.ALL_KINDS, make_cmds, nsets=(9, 24), big=True,
-                components=[gen_hash, gen_hashdict, gen_rpfc, Sub(gen_iters, ["bsbi_samples", "bsbi_index", "blocks"])],
+                components=[gen_hash, gen_hashdict, gen_rpfc, gen_xbw, Sub(gen_iters, ["bsbi_samples", "bsbi_index", "blocks"])],
                 rule="all 13 kinds x boundary-directed string sets (n around multiples of the bucket sizes, ladders of proper "
                      "prefixes, shared prefixes and lengths >= 128, single characters, repetitive and dominant-symbol text) x "
                      "build parameters x {fresh, reloaded via generic loader, own loader (thorough)}; every ID 1..n extracted "
@@ -35,5 +35,5 @@ CFG.fm_text_residues = [31, 0, 1, 30, 63 % 32, 15, 31]
 
 def check(run, tier, seed, replay):
     run.assumptions = ["string lengths and counts below 2^32 (the iterator reports lengths as uint)",
-                       "kinds other than PFC are covered by the abstract specification theorems plus correspondence, not by a concrete model (see level_note)"]
+                       "HTFC/HHTFC/RPHTFC, HASHHF/HASHUFFDAC and XBW are covered by the specification theorems plus correspondence only; RPFC, RPDAC, FMINDEX, HASHRPDAC, HASHRPF, Blocks: theorems hold for every object certified by its verified checker"]
     DC.run(run, CFG, tier, seed, replay)
